@@ -306,7 +306,7 @@ func C08(c *vlib.Ctx) {
 					case m == 19:
 						mut, pass = "password_trailing_space", pass+" "
 					case m == 20:
-						mut, user, pass = "unknown_user_known_password", "nobody", pass
+						mut, user = "unknown_user_known_password", "nobody"
 					case m == 21:
 						mut, user, pass = "swapped_user_and_password", pass, user
 					case m == 0:
